@@ -853,3 +853,96 @@ def run_eqorder(chk, F, rid="R-EQORDER"):
                "expression_t::equal answers true on a path that is neither the identity of the two nodes nor the end of the "
                "position-by-position comparison (conditions: %s)" % "; ".join(short(c)[:50] for c, t in conds if t),
                "%s:%s" % (fn["file"], site.get("l")), sample=why)
+
+
+# ---------------------------------------------------------------------------------------------- R-CLONESYM
+def run_clonesym(chk, F, rid="R-CLONESYM"):
+    """clone_deeper(frame, select) rebinds every symbol to the symbol of the same name in the given frames.  A variable
+    bound inside the expression - the binder of a forall and its uses - lives in a scope that was popped when the quantifier
+    ended; it cannot be found there.  Storing the (default constructed) lookup result regardless made the clone differ from
+    the original and unprintable (found by a defect-hunt sub-agent, E19-3; the assert(res) before it is compiled out)."""
+    from ..inline import sites_with_conditions, strip
+    chk.rule(rid, "in expression_t::clone_deeper(frame_t, frame_t) the symbol of the clone is the looked-up one only where the "
+                  "lookup succeeded (a path condition or a conditional expression on the result of resolve); otherwise it is "
+                  "the original symbol")
+    fns = [f for f in F.fns("UTAP::expression_t::clone_deeper") if f.get("body") is not None and len(f.get("params", [])) == 2 and
+           "frame_t" in (f["params"][0].get("ct") or f["params"][0].get("t") or "")]
+    if not fns:
+        raise AnalysisBroken("expression_t::clone_deeper(frame_t, frame_t) not found")
+    fn = inline_tail_delegate(fns[0], F)
+    res_locals, out_locals = set(), set()
+    for x in walk(fn["body"]):
+        for c in ([x] if x.get("k") == "call" else []):
+            if c.get("name") == "resolve" and len(c.get("args", [])) == 2:
+                a = strip(c["args"][1])
+                if isinstance(a, dict) and a.get("k") == "ref":
+                    out_locals.add(a.get("id"))
+        if x.get("k") == "decl":
+            for v in x.get("vars", []):
+                if v.get("init") is not None and any(c.get("name") == "resolve" for c in calls(v["init"])):
+                    res_locals.add(v.get("id"))
+
+    def is_store(x):
+        if x.get("k") == "bin" and x.get("op") == "=":
+            l = strip(x["lhs"])
+            return isinstance(l, dict) and l.get("k") == "member" and l.get("name") == "symbol"
+        if x.get("k") == "call" and x.get("ck") == "op" and x.get("op") == "=" and x.get("recv") is not None:
+            l = strip(x["recv"])
+            return isinstance(l, dict) and l.get("k") == "member" and l.get("name") == "symbol"
+        if x.get("k") == "return" and x.get("e") is not None and fn is not fns[0]:
+            return False
+        return False
+    n = 0
+    for site, conds in sites_with_conditions(fn["body"], is_store):
+        rhs = site.get("rhs") if site.get("k") == "bin" else (site.get("args") or [None])[0]
+        r = strip(rhs) if rhs is not None else {}
+        uses_out = any(y.get("k") == "ref" and y.get("id") in out_locals for y in walk(rhs))
+        if not uses_out:
+            continue
+        if any(y.get("k") == "lambda" for y in walk(rhs)):
+            continue        # the lookup lives in a lambda handed to a shared worker: judged by its returns below
+        n += 1
+        guarded = any(t and any(y.get("k") == "ref" and y.get("id") in res_locals for y in walk(c)) and "!" not in short(c)[:2]
+                      for c, t in conds if isinstance(c, dict) and c.get("k") != "caseof")
+        conditional = isinstance(r, dict) and r.get("k") == "cond" and \
+            any(y.get("k") == "ref" and y.get("id") in res_locals for y in walk(r["c"]))
+        chk.ob(rid, "clone_deeper/2|symbol", guarded or conditional,
+               "expression_t::clone_deeper(frame, select) stores the result of the lookup as the symbol of the clone whether "
+               "the name was found or not (`%s`): the variables bound inside the expression come back with the null symbol, "
+               "the clone is not equal to the original and cannot be printed" % short(site)[:70],
+               "%s:%s" % (fn["file"], site.get("l")), sample="the looked-up symbol is stored only where resolve succeeded")
+    if n < 1:
+        # the lookup may live in a lambda handed to a shared worker (`rebound`): judge its returns
+        for lam in [x for x in walk(fns[0]["body"]) if x.get("k") == "lambda"]:
+            if not any(c.get("name") == "resolve" for c in calls(lam.get("body"))):
+                continue
+            rl = set()
+            ol = set()
+            for x in walk(lam["body"]):
+                if x.get("k") == "decl":
+                    for v in x.get("vars", []):
+                        if v.get("init") is not None and any(c.get("name") == "resolve" for c in calls(v["init"])):
+                            rl.add(v.get("id"))
+                if x.get("k") == "call" and x.get("name") == "resolve" and len(x.get("args", [])) == 2:
+                    a = strip(x["args"][1])
+                    if isinstance(a, dict) and a.get("k") == "ref":
+                        ol.add(a.get("id"))
+            ok = True
+            for site, conds in sites_with_conditions(lam["body"], lambda x: x.get("k") == "return" and x.get("e") is not None):
+                e = strip(site["e"])
+                while isinstance(e, dict) and e.get("k") == "construct" and len(e.get("args", [])) == 1:
+                    e = strip(e["args"][0])
+                if not any(y.get("k") == "ref" and y.get("id") in ol for y in walk(e)):
+                    continue
+                # before the lookup the out variable is still the empty symbol it was declared as (`if (s == uid) return uid;`)
+                before = not any((c.get("l") or 0) < (site.get("l") or 0) for c in calls(lam["body"]) if c.get("name") == "resolve")
+                cond_ok = isinstance(e, dict) and e.get("k") == "cond" and any(y.get("k") == "ref" and y.get("id") in rl for y in walk(e["c"]))
+                path_ok = any(t and any(y.get("k") == "ref" and y.get("id") in rl for y in walk(c)) for c, t in conds
+                              if isinstance(c, dict) and c.get("k") != "caseof")
+                ok = ok and (before or cond_ok or path_ok)
+            n += 1
+            chk.ob(rid, "clone_deeper/2|symbol", ok, "the symbol mapping of clone_deeper(frame, select) returns the lookup "
+                   "result regardless of whether the name was found", "%s:%s" % (fns[0]["file"], lam.get("l")),
+                   sample="symbol mapping lambda decides on the result of resolve")
+    if n < 1:
+        raise AnalysisBroken("R-CLONESYM: the store of the looked-up symbol was not found")
